@@ -74,9 +74,11 @@ Proof. exact xref_table_any_sectioning. Qed.
    two numbers, text of the object) packed as the standard says (N pairs "number offset" then the objects,
    offsets counted from First), with any one-byte index separators (NUL HT LF VT FF CR SP; at least one between
    numbers), any white-space after the index: if every object's text, followed by the texts after it, parses
-   to the object it denotes (the object round trip -- c14's object_rt supplies it for lopdf's spelling, rung 2
-   for the others), then ObjectStream::new returns exactly these objects under generation 0.  N only has to
-   be an integer (lopdf uses it for a warning). *)
+   to the object it denotes and the parser stops at or before the next object's text ([items_rt]: the object round
+   trip -- c14's object_rt supplies it for lopdf's spelling, rung 2 for the others; an object that does not reach
+   into its successor is what the overlap limit of ObjectStream::new, /repo fix of C04-objstm-shared-offsets, needs:
+   the members are then charged at most the length of their texts), then ObjectStream::new returns exactly these
+   objects under generation 0.  N only has to be an integer (lopdf uses it for a warning). *)
 Theorem C02_objstm_expand :
   forall (denote : ositem -> obj) (hdr_end : bytes) (items : list ositem) (d : dict) (n : Z),
     items <> [] -> Forall item_ok items -> items_rt denote items -> later_ws1 (tl items) ->
@@ -530,7 +532,10 @@ Theorem C02_example_objstm :
 Proof.
   split; [|split; [|split]].
   - repeat constructor; try discriminate; cbn; unfold u32_max; lia.
-  - cbn [items_rt ex_items]. repeat split; vm_compute; reflexivity.
+  - cbn [items_rt ex_items]. unfold item_rt.
+    split; [eexists; split; [vm_compute; reflexivity|cbn; lia]|].
+    split; [eexists; split; [vm_compute; reflexivity|cbn; lia]|].
+    split; [eexists; split; [vm_compute; reflexivity|cbn; lia]|exact I].
   - cbn. repeat split; discriminate.
   - vm_compute. reflexivity.
 Qed.
